@@ -292,4 +292,330 @@ example :
     jsonRun (fun _ => true) [.scen kx none (.step 0 .started), .scen kx none (.step 0 .passed), .finished] =
       [.feature 0 [⟨none, 1, false, [(0, .passed)], [], []⟩]] := by decide
 
+
+set_option linter.unusedSimpArgs false
+
+/-! ## Cucumber JSON: the document states exactly the step facts (features with a path) -/
+
+/-- a step fact as the Cucumber JSON document states it -/
+abbrev JFact := Nat × Option Nat × Nat × Bool × Nat × Status
+
+def elemFacts (f : Nat) (e : JElem) : List JFact := e.steps.map (fun p => (f, e.rule, e.scen, e.bg, p.1, p.2))
+
+def featFacts : JFeat → List JFact
+  | .feature f els => els.flatMap (elemFacts f)
+  | .errors _ => []
+
+def docFacts (doc : List JFeat) : List JFact := doc.flatMap featFacts
+
+def evJFact : Ev → Option JFact
+  | .scen k _ (.bg i r) => (statusOf r).map (fun st => (k.feat, k.rule, k.scen, true, i, st))
+  | .scen k _ (.step i r) => (statusOf r).map (fun st => (k.feat, k.rule, k.scen, false, i, st))
+  | _ => none
+
+theorem updFirstJ_flatMap {α β} (p : α → Bool) (g : α → α) (buf : α → List β) (x : List β) (l : List α)
+    (hex : l.any p = true) (hg : ∀ a ∈ l, p a = true → buf (g a) ~ buf a ++ x) :
+    (jsonUpd.updFirstJ p g l).flatMap buf ~ l.flatMap buf ++ x := by
+  induction l with
+  | nil => simp at hex
+  | cons a rest ih =>
+    by_cases hp : p a = true
+    · simp only [jsonUpd.updFirstJ, hp, if_true, flatMap_cons]
+      have := hg a (by simp) hp
+      exact (this.append_right _).trans (by
+        rw [append_assoc, append_assoc]
+        exact Perm.append_left _ perm_append_comm)
+    · have hp' : p a = false := by simpa using hp
+      simp only [jsonUpd.updFirstJ, hp', Bool.false_eq_true, if_false, flatMap_cons]
+      have hex' : rest.any p = true := by simpa [hp'] using hex
+      have := ih hex' (fun b hb => hg b (by simp [hb]))
+      rw [append_assoc]
+      exact Perm.append_left _ this
+
+/-- `mut_or_insert_element` adds exactly the new steps under the element (k.rule, k.scen, bg) of feature k.feat -/
+theorem jsonUpd_facts (doc : List JFeat) (k : ScenKey) (bg : Bool) (g : JElem → JElem) (new : List (Nat × Status))
+    (hg : ∀ e : JElem, (g e).steps = e.steps ++ new ∧ (g e).rule = e.rule ∧ (g e).scen = e.scen ∧ (g e).bg = e.bg) :
+    docFacts (jsonUpd (fun _ => true) doc k bg g) ~
+      docFacts doc ++ new.map (fun p => (k.feat, k.rule, k.scen, bg, p.1, p.2)) := by
+  have helem : ∀ (f : Nat) (e : JElem), (e.rule == k.rule && e.scen == k.scen && e.bg == bg) = true →
+      elemFacts f (g e) = elemFacts f e ++ new.map (fun p => (f, k.rule, k.scen, bg, p.1, p.2)) := by
+    intro f e he
+    simp only [Bool.and_eq_true, beq_iff_eq] at he
+    obtain ⟨h1, h2, h3, h4⟩ := hg e
+    simp [elemFacts, h1, h2, h3, h4, he.1.1, he.1.2, he.2]
+  have hels : ∀ (f : Nat) (els : List JElem),
+      (if els.any (fun e => e.rule == k.rule && e.scen == k.scen && e.bg == bg) then
+          jsonUpd.updFirstJ (fun e => e.rule == k.rule && e.scen == k.scen && e.bg == bg) g els
+        else els ++ [g ⟨k.rule, k.scen, bg, [], [], []⟩]).flatMap (elemFacts f) ~
+      els.flatMap (elemFacts f) ++ new.map (fun p => (f, k.rule, k.scen, bg, p.1, p.2)) := by
+    intro f els
+    split
+    · rename_i hex
+      exact updFirstJ_flatMap _ _ _ _ _ hex (fun a _ ha => by rw [helem f a ha])
+    · simp only [flatMap_append, flatMap_cons, flatMap_nil, append_nil]
+      rw [helem f ⟨k.rule, k.scen, bg, [], [], []⟩ (by simp)]
+      simp [elemFacts]
+  unfold jsonUpd docFacts
+  simp only
+  split
+  · rename_i hex
+    apply updFirstJ_flatMap _ _ _ _ _ hex
+    intro x _ hx
+    cases x with
+    | errors i => simp at hx
+    | feature f els =>
+      simp only [Bool.true_and, beq_iff_eq] at hx
+      subst hx
+      exact hels _ els
+  · simp only [flatMap_append, flatMap_cons, flatMap_nil, append_nil, featFacts]
+    exact Perm.append_left _ (by simpa using hels k.feat [])
+
+theorem jsonHandle_facts (doc : List JFeat) (e : Ev) :
+    docFacts (jsonHandle (fun _ => true) doc e) ~ docFacts doc ++ (evJFact e).toList := by
+  have hid : ∀ (k : ScenKey) (bg : Bool) (g : JElem → JElem),
+      (∀ x : JElem, (g x).steps = x.steps ∧ (g x).rule = x.rule ∧ (g x).scen = x.scen ∧ (g x).bg = x.bg) →
+      docFacts (jsonUpd (fun _ => true) doc k bg g) ~ docFacts doc := by
+    intro k bg g hg
+    have := jsonUpd_facts doc k bg g [] (fun x => by simpa using hg x)
+    simpa using this
+  cases e with
+  | scen k ret se =>
+    cases se with
+    | hook t r =>
+      cases r with
+      | started => simp [jsonHandle, evJFact]
+      | passed =>
+        simp only [jsonHandle, evJFact, Option.toList, append_nil]
+        apply hid; intro x; split <;> simp
+      | failed p =>
+        simp only [jsonHandle, evJFact, Option.toList, append_nil]
+        apply hid; intro x; split <;> simp
+    | bg i r =>
+      simp only [jsonHandle, evJFact]
+      cases hs : statusOf r with
+      | none => simpa using hid k true id (by intro x; simp)
+      | some st =>
+        have := jsonUpd_facts doc k true (fun e => { e with steps := e.steps ++ [(i, st)] }) [(i, st)] (by intro x; simp)
+        simpa using this
+    | step i r =>
+      simp only [jsonHandle, evJFact]
+      cases hs : statusOf r with
+      | none => simpa using hid k false id (by intro x; simp)
+      | some st =>
+        have := jsonUpd_facts doc k false (fun e => { e with steps := e.steps ++ [(i, st)] }) [(i, st)] (by intro x; simp)
+        simpa using this
+    | _ => simp [jsonHandle, evJFact]
+  | parseErr i => simp [jsonHandle, evJFact, docFacts, featFacts]
+  | _ => simp [jsonHandle, evJFact]
+
+/-- **Cucumber JSON states exactly the step facts of the run** (features with a source path): flattening
+    the document — every step entry with its feature, rule, scenario and element type — gives a permutation of
+    the step-result events received before run-Finished: nothing dropped, duplicated, invented or filed under
+    another feature / scenario. (For path-less features this is false: `json_dup_false`, finding F-C14b.) -/
+theorem json_step_facts (evs : List Ev) :
+    docFacts (jsonRun (fun _ => true) evs) ~ (evs.takeWhile (fun e => !e.isFinished)).filterMap evJFact := by
+  unfold jsonRun
+  suffices ∀ (es : List Ev) (doc : List JFeat),
+      docFacts (es.foldl (jsonHandle (fun _ => true)) doc) ~ docFacts doc ++ es.filterMap evJFact from by
+    simpa [docFacts] using this _ []
+  intro es
+  induction es with
+  | nil => intro doc; simp
+  | cons e rest ih =>
+    intro doc
+    simp only [foldl_cons]
+    refine (ih _).trans ?_
+    have := jsonHandle_facts doc e
+    cases he : evJFact e with
+    | none => rw [he] at this; simpa [filterMap_cons, he] using this.append_right _
+    | some x =>
+      rw [he] at this
+      simp only [filterMap_cons, he]
+      simpa [append_assoc] using this.append_right (rest.filterMap evJFact)
+
+
+/-! ## JUnit: one test case per finished attempt -/
+
+def suiteCases : JSuite → Nat
+  | .feature _ cs => cs.length
+  | .errors _ => 0
+
+def reportCases (r : List JSuite) : Nat := (r.map suiteCases).sum
+
+def isAttemptFinished : Ev → Bool
+  | .scen _ _ .finished => true
+  | _ => false
+
+def juFold (s : JU) (evs : List Ev) : Option JU := evs.foldl (fun (acc : Option JU) e => acc.bind (fun s => s.handle e)) (some s)
+
+theorem juFold_none (evs : List Ev) : evs.foldl (fun (acc : Option JU) e => acc.bind (fun s => s.handle e)) none = none := by
+  induction evs with
+  | nil => rfl
+  | cons e es ih => simpa using ih
+
+theorem juFold_cons (s : JU) (e : Ev) (es : List Ev) : juFold s (e :: es) = (s.handle e).bind (fun s' => juFold s' es) := by
+  simp only [juFold, foldl_cons, Option.bind_some]
+  cases h : s.handle e with
+  | none => simp [juFold_none]
+  | some s' => simp
+
+/-- the open suite exists exactly while a feature is open -/
+def juTied (q : SeqSt) (s : JU) : Prop := (q.feat.isSome ↔ s.suit.isSome)
+
+theorem ju_step (q q' : SeqSt) (s s' : JU) (e : Ev) (ht : juTied q s) (hq : q.step e = some q') (hs : s.handle e = some s') :
+    juTied q' s' ∧
+    reportCases s'.report + (s'.suit.map (·.2.length)).getD 0 =
+      reportCases s.report + (s.suit.map (·.2.length)).getD 0 + (if isAttemptFinished e then 1 else 0) := by
+  unfold juTied at *
+  cases e with
+  | featStarted f =>
+    simp only [SeqSt.step] at hq
+    split at hq
+    · rename_i hc
+      simp only [Bool.and_eq_true, Option.isNone_iff_eq_none] at hc
+      simp only [Option.some.injEq] at hq; subst hq
+      simp only [JU.handle, Option.some.injEq] at hs; subst hs
+      have hnone : s.suit = none := by
+        cases hsu : s.suit with
+        | none => rfl
+        | some x => have := ht.mpr (by simp [hsu]); simp [hc.1.1] at this
+      simp [hnone, isAttemptFinished]
+    · cases hq
+  | featFinished f =>
+    simp only [SeqSt.step] at hq
+    split at hq
+    · simp only [Option.some.injEq] at hq; subst hq
+      simp only [JU.handle] at hs
+      cases hsu : s.suit with
+      | none => simp [hsu] at hs
+      | some x =>
+        obtain ⟨f', cs⟩ := x
+        simp only [hsu, Option.some.injEq] at hs; subst hs
+        simp [reportCases, suiteCases, isAttemptFinished, sum_append]
+    · cases hq
+  | scen k ret se =>
+    cases se with
+    | finished =>
+      simp only [SeqSt.step] at hq
+      split at hq
+      · rename_i hc
+        simp only [Option.some.injEq] at hq; subst hq
+        simp only [JU.handle] at hs
+        cases hcs : caseStatus s.events with
+        | none => simp [hcs] at hs
+        | some st =>
+          cases hsu : s.suit with
+          | none => simp [hcs, hsu] at hs
+          | some x =>
+            obtain ⟨f', cs⟩ := x
+            simp only [hcs, hsu, Option.some.injEq] at hs; subst hs
+            refine ⟨by simpa [hsu] using ht, ?_⟩
+            simp [isAttemptFinished]; omega
+      · cases hq
+    | started =>
+      simp only [SeqSt.step] at hq
+      split at hq
+      · simp only [Option.some.injEq] at hq; subst hq
+        simp only [JU.handle, Option.some.injEq] at hs; subst hs
+        exact ⟨ht, by simp [isAttemptFinished]⟩
+      · cases hq
+    | log m =>
+      simp only [SeqSt.step] at hq
+      split at hq
+      · simp only [Option.some.injEq] at hq; subst hq
+        simp only [JU.handle, Option.some.injEq] at hs; subst hs
+        exact ⟨ht, by simp [isAttemptFinished]⟩
+      · cases hq
+    | hook t r =>
+      have hs' : s' = { s with events := s.events ++ [.hook t r] } := by
+        simp only [JU.handle, Option.some.injEq] at hs; exact hs.symm
+      subst hs'
+      have hf : q'.feat = q.feat := by
+        cases r <;> (simp only [SeqSt.step] at hq; split at hq <;> first | (simp only [Option.some.injEq] at hq; subst hq; rfl) | cases hq)
+      exact ⟨by rw [hf]; exact ht, by simp [isAttemptFinished]⟩
+    | bg i r =>
+      have hs' : s' = { s with events := s.events ++ [.bg i r] } := by
+        simp only [JU.handle, Option.some.injEq] at hs; exact hs.symm
+      subst hs'
+      have hf : q'.feat = q.feat := by
+        cases r <;> (simp only [SeqSt.step] at hq; split at hq <;> first | (simp only [Option.some.injEq] at hq; subst hq; rfl) | cases hq)
+      exact ⟨by rw [hf]; exact ht, by simp [isAttemptFinished]⟩
+    | step i r =>
+      have hs' : s' = { s with events := s.events ++ [.step i r] } := by
+        simp only [JU.handle, Option.some.injEq] at hs; exact hs.symm
+      subst hs'
+      have hf : q'.feat = q.feat := by
+        cases r <;> (simp only [SeqSt.step] at hq; split at hq <;> first | (simp only [Option.some.injEq] at hq; subst hq; rfl) | cases hq)
+      exact ⟨by rw [hf]; exact ht, by simp [isAttemptFinished]⟩
+  | parseErr i =>
+    simp only [SeqSt.step, Option.some.injEq] at hq; subst hq
+    simp only [JU.handle, Option.some.injEq] at hs; subst hs
+    exact ⟨ht, by simp [reportCases, suiteCases, isAttemptFinished, sum_append]⟩
+  | ruleStarted f r =>
+    simp only [JU.handle, Option.some.injEq] at hs; subst hs
+    simp only [SeqSt.step] at hq
+    split at hq
+    · simp only [Option.some.injEq] at hq; subst hq; exact ⟨ht, by simp [isAttemptFinished]⟩
+    · cases hq
+  | ruleFinished f r =>
+    simp only [JU.handle, Option.some.injEq] at hs; subst hs
+    simp only [SeqSt.step] at hq
+    split at hq
+    · simp only [Option.some.injEq] at hq; subst hq; exact ⟨ht, by simp [isAttemptFinished]⟩
+    · cases hq
+  | started =>
+    simp only [SeqSt.step, Option.some.injEq] at hq; subst hq
+    simp only [JU.handle, Option.some.injEq] at hs; subst hs
+    exact ⟨ht, by simp [isAttemptFinished]⟩
+  | parsingFinished a b c d g =>
+    simp only [SeqSt.step, Option.some.injEq] at hq; subst hq
+    simp only [JU.handle, Option.some.injEq] at hs; subst hs
+    exact ⟨ht, by simp [isAttemptFinished]⟩
+  | finished =>
+    simp only [SeqSt.step, Option.some.injEq] at hq; subst hq
+    simp only [JU.handle, Option.some.injEq] at hs; subst hs
+    exact ⟨ht, by simp [isAttemptFinished]⟩
+
+
+theorem ju_run (q : SeqSt) (s s' : JU) (evs : List Ev) (ht : juTied q s) (hq : SeqOk q evs = true)
+    (hs : juFold s evs = some s') :
+    reportCases s'.report + (s'.suit.map (·.2.length)).getD 0 =
+      reportCases s.report + (s.suit.map (·.2.length)).getD 0 + (evs.filter isAttemptFinished).length := by
+  induction evs generalizing q s with
+  | nil => simp only [juFold, foldl_nil, Option.some.injEq] at hs; subst hs; simp
+  | cons e es ih =>
+    simp only [SeqOk] at hq
+    rw [juFold_cons] at hs
+    cases hqe : q.step e with
+    | none => simp [hqe] at hq
+    | some q1 =>
+      simp only [hqe] at hq
+      cases hse : s.handle e with
+      | none => simp [hse] at hs
+      | some s1 =>
+        simp only [hse, Option.bind_some] at hs
+        obtain ⟨ht1, hc1⟩ := ju_step q q1 s s1 e ht hqe hse
+        have := ih q1 s1 ht1 hq hs
+        rw [this, hc1]
+        by_cases hf : isAttemptFinished e = true
+        · simp [filter_cons, hf]; omega
+        · have hf' : isAttemptFinished e = false := by simpa using hf
+          simp [filter_cons, hf']
+
+/-- **JUnit: exactly one test case per finished scenario attempt** — for every normalized canonical stream
+    (`SeqOk`) on which the writer hits no panic branch, the number of test cases in the closed suites plus
+    those of the suite still open equals the number of attempt-Finished events received (retries are
+    separate cases); each case's status is decided by `caseStatus` (`junit_case_status`). -/
+theorem junit_one_case_per_attempt (evs : List Ev) (s' : JU) (hq : SeqOk {} evs = true) (hs : juFold {} evs = some s') :
+    reportCases s'.report + (s'.suit.map (·.2.length)).getD 0 = (evs.filter isAttemptFinished).length := by
+  have := ju_run {} {} s' evs (by simp [juTied]) hq hs
+  simpa [reportCases] using this
+
+theorem junitRun_eq (evs : List Ev) : junitRun evs = (juFold {} evs).map (·.report) := rfl
+
+/-- non-vacuity on the example stream of the plain-text theorems: 2 finished attempts, 2 test cases -/
+example : SeqOk {} basicEx = true ∧ (junitRun basicEx).map reportCases = some 2 ∧
+    (basicEx.filter isAttemptFinished).length = 2 := by decide
+
+
 end Cuke.C14
